@@ -65,6 +65,10 @@ CHECKS = {
              text="Generated schemas x seeded random instances x ~20 corruption operators and 8 hostile texts, folded plain and enhanced under the strategy orders; TLC evaluates ValidSound, InvalidClean, StrictVerbatim, Agree, ConfidenceRange, NoFabrication and NoRaise on every record and checks that the cascade returns the first strategy that is valid when tried alone. The cascade logic is covered exhaustively (all 64 orders in the thorough tier); texts are sampled.",
              note="Trusted: TLC/SANY; pydantic/json in the harness compute the object-level booleans TLC consumes. Character-level behaviour of the extraction / repair regexes is reached only through the sampled corruptions (DESIGN.md section 10).",
              ref="DESIGN.md section 4 C11"),
+ "C12": dict(technique="TLA+ reference renderer (Ribosome.tla: one left-to-right expansion over token sequences, data pieces appended verbatim) model-checked for non-interference; TLC enumerates every (template, context) case of the bounded universe with its specified output (MC_RibosomeGen, ndJsonSerialize, sharded); cases replayed into the real Ribosome and judged by TLC (Trace_Ribosome.tla)",
+             text="Exhaustive over the bounded grammar universe: all 1-token templates over a 51-token universe and all 2-token templates over a 16-token core (thorough: the whole universe) x 234 contexts (missing / falsy / plain values and values, loop items carrying template syntax: variables, optionals, includes, filters, blocks, loop specials), with includes nested two deep; the expected text and warnings of every case are computed by TLC from the specification and compared with the real renderer's output in non-strict and strict mode.",
+             note="Trusted: TLC/SANY, the concretisation of tokens / pieces to strings (checked by the fact that all delimiter-free cases agree), Python's str methods for the filters. Defaults are delimiter-free (grammar limit). Blocks are non-nested as in the statement.",
+             ref="DESIGN.md section 4 C12"),
 }
 NOT_APPLICABLE = []
 
